@@ -5,7 +5,7 @@
    the implementation keeps a normalised vector v = u/|u| and reports sqrt(<v, G v>), G = A^H A; the model keeps
    the pair (u, <u,u>) and reports the SQUARE of the estimate, q = <u, G u> / <u, u> (the same number, because
    v is normalised: initially (repaired code) and after every step).  The next vector G v/|G v| is represented
-   by u' = G u.  The isclose test compares square roots; it enters as a boolean function [close q q_old] of the
+   by u' = G u, or by u itself when G u = 0 (repaired code: a start vector in the kernel is kept, the estimate stays 0).  The isclose test compares square roots; it enters as a boolean function [close q q_old] of the
    squared estimates (for Qc: evaluated with square roots rounded down to 2^-64, see [closeQ]; the harness
    skips cases within 1e-6 of the decision boundary).
    Batched use (dim = (-1,) on a stack of matrices): all problems advance in lockstep and the loop stops only
@@ -45,7 +45,9 @@ Section PowerIter.
 
   Variable Gs : list (vec -> vec).   (* one operator A^H A per batch element *)
 
-  Definition apply_all (us : list vec) : list vec := map (fun Gu => fst Gu (snd Gu)) (combine Gs us).
+  (* vector = where(|G v| > 0, G v / |G v|, v): a vector in the kernel of the operator is kept (repaired code; before, 0/0 gave nan) *)
+  Definition next_vec (G : vec -> vec) (u : vec) : vec := let w := G u in if feqb (dot' w w) f0 then u else w.
+  Definition apply_all (us : list vec) : list vec := map (fun Gu => next_vec (fst Gu) (snd Gu)) (combine Gs us).
 
   (* one pass through the loop body *)
   Definition pstep (st : pstate) : pres :=
